@@ -1,5 +1,5 @@
 (* Property C12 — statements only.  Every theorem is closed by [exact] of a lemma from
-   Proofs/Route_proofs.v; the statements are pinned again in /verif/pins/C12.v.
+   Proofs/Route_proofs.v or Proofs/C12_d4_proofs.v; the statements are pinned again in /verif/pins/C12.v.
 
    C12 is the COMPOSITION property.  Model/Route.v composes the models of the other slices
    (imported, not copied): the token of the bound key (C03: PartKey.ps_calculate_token), the
@@ -25,7 +25,7 @@
                    tablets code can reach, by C15_dc and C15_no_stale_nodes). *)
 From SV Require Import Base.Prelude Base.Bytes Model.Ring Model.Replicas Model.Plan Model.Shard Model.Route.
 From SV Require Model.Murmur Model.PartKey Model.Tablets.
-From SV Require Import Proofs.Ring_proofs Proofs.Replicas_proofs Proofs.Plan_proofs Proofs.Shard_proofs Proofs.Route_proofs.
+From SV Require Import Proofs.Ring_proofs Proofs.Replicas_proofs Proofs.Plan_proofs Proofs.Shard_proofs Proofs.Route_proofs Proofs.C12_d4_proofs.
 From SV Require Proofs.Tablets_proofs Proofs.PartKey_proofs.
 Open Scope Z_scope.
 
@@ -370,6 +370,55 @@ Proof. exact prop_obs_sound. Qed.
 Theorem C12_pool_wfb_sound : forall p, pool_wfb p = true -> pool_wf p.
 Proof. exact pool_wfb_sound. Qed.
 
+(* ---- deepening round 4: the driver's input checks and constructors, the pool acceptor as an
+   equivalence ------------------------------------------------------------------------------------ *)
+(* the pool acceptor IS the conclusion of C12_conn_accept_sound *)
+Theorem C12_conn_accept_iff : forall p want sh, accept_conn_shard p want sh = true <->
+  (pool_has_shard p sh = true /\
+   (pool_sharder p <> None -> pool_has_shard p (shard_u16 want) = true -> sh = shard_u16 want)).
+Proof. exact accept_conn_shard_iff. Qed.
+
+(* pool_wfb decides pool_wf *)
+Theorem C12_pool_wfb_iff : forall p, pool_wfb p = true <-> pool_wf p.
+Proof. exact pool_wfb_iff. Qed.
+
+(* cluster_wfb, the test the driver runs on every cluster description before judging a K line:
+   passed on a node list outside of which every pool is down => the hypothesis [cluster_ok] of the
+   routing theorems; and every cluster_ok cluster passes it, on any node list *)
+Theorem C12_cluster_wfb_sound : forall cl nodes, cluster_wfb cl nodes = true ->
+  (forall n, ~ In n nodes -> c_pool cl n = PoolDown) -> cluster_ok cl.
+Proof. exact cluster_wfb_sound. Qed.
+
+Theorem C12_cluster_wfb_complete : forall cl nodes, cluster_ok cl -> cluster_wfb cl nodes = true.
+Proof. exact cluster_wfb_complete. Qed.
+
+(* as the driver builds the description (c_pool = assoc_pool over the association list whose keys
+   are the node list given to cluster_wfb) the premise about the other nodes is discharged *)
+Theorem C12_cluster_wfb_assoc_ok : forall cl l, (forall n, c_pool cl n = assoc_pool l n) ->
+  cluster_wfb cl (map fst l) = true -> cluster_ok cl.
+Proof. exact cluster_wfb_assoc_ok. Qed.
+
+(* pool_of, with which the driver turns the observed (shard of each live connection) list of a node
+   into a pool_view: the pool has a connection of shard s exactly when s was observed and is a shard
+   of the node (sharded) / exactly for s = 0 (not sharded); it reports the given sharder; it is well
+   formed as soon as one observed shard is in range *)
+Theorem C12_pool_of_sharded_has : forall nr msb shards s,
+  pool_has_shard (pool_of (Some (nr, msb)) shards) s = true <-> In s shards /\ (s < nr)%N.
+Proof. exact pool_of_sharded_has. Qed.
+
+Theorem C12_pool_of_unsharded_has : forall shards s,
+  pool_has_shard (pool_of None shards) s = true <-> shards <> [] /\ s = 0%N.
+Proof. exact pool_of_unsharded_has. Qed.
+
+Theorem C12_pool_of_sharder : forall sharder shards, shards <> [] ->
+  pool_sharder (pool_of sharder shards) = sharder.
+Proof. exact pool_of_sharder. Qed.
+
+Theorem C12_pool_of_wf : forall sharder shards,
+  (forall nr msb, sharder = Some (nr, msb) -> shards <> [] -> exists s, In s shards /\ (s < nr)%N) ->
+  pool_wf (pool_of sharder shards).
+Proof. exact pool_of_wf. Qed.
+
 (* ---- non-vacuity ---------------------------------------------------------------------------------
    nodes 1, 2 in datacenter 1 (4 shards msb 12 / 2 shards msb 0), node 3 in datacenter 2 (no
    shards); keyspace 0 = NTS {1:1, 2:1}; table (0,0) on the ring, table (0,1) with tablets *)
@@ -623,6 +672,32 @@ Example C12_ex_release :
   excess_limit (PerShard 1) r = 20%nat /\ excess_limit (PerHost 3) r = 0%nat.
 Proof. repeat split; vm_compute; reflexivity. Qed.
 
+(* round 4: the driver's input test on the example cluster (its hypothesis instantiated, the theorem
+   applied), a cluster it refuses (a connection filed under the wrong slot; a pool on a node without
+   one), the pool_of views, the acceptor equivalence on an accepting and a refusing observation *)
+Example C12_ex_inputs :
+  let l := [(1%N, ex_pool 1%N); (2%N, ex_pool 2%N); (3%N, ex_pool 3%N)] in
+  (forall n, c_pool ex_cl n = assoc_pool l n) /\ cluster_wfb ex_cl (map fst l) = true /\ cluster_ok ex_cl /\
+  (let bad := PoolSharded 2 0 [[mkConn 0 (Some (1, 2, 0)%N)]; []] in
+   pool_wfb bad = false /\
+   cluster_wfb (mkCluster ex_dcf ex_rackf ex_ring [] [] (fun _ => true) (fun _ => bad) ex_tablets) [1%N] = false) /\
+  cluster_wfb (mkCluster ex_dcf ex_rackf ex_ring [] [] (fun _ => false) ex_pool ex_tablets) [1%N] = false /\
+  pool_has_shard (pool_of (Some (2, 0)%N) [0; 0; 5]%N) 0%N = true /\
+  pool_has_shard (pool_of (Some (2, 0)%N) [0; 0; 5]%N) 1%N = false /\
+  pool_has_shard (pool_of (Some (2, 0)%N) [0; 0; 5]%N) 5%N = false /\
+  pool_wfb (pool_of (Some (2, 0)%N) [5]%N) = false /\
+  accept_conn_shard (ex_pool 2%N) 0%N 0%N = true /\ accept_conn_shard (ex_pool 2%N) 1%N 0%N = true /\
+  accept_conn_shard (ex_pool 1%N) 2%N 3%N = false.
+Proof.
+  cbv zeta.
+  assert (Ha : forall n, c_pool ex_cl n = assoc_pool [(1%N, ex_pool 1%N); (2%N, ex_pool 2%N); (3%N, ex_pool 3%N)] n).
+  { intros n. cbn [ex_cl c_pool]. destruct n as [|[[|[]|]|[|[]|]|]]; reflexivity. }
+  assert (Hw : cluster_wfb ex_cl (map fst [(1%N, ex_pool 1%N); (2%N, ex_pool 2%N); (3%N, ex_pool 3%N)]) = true)
+    by (vm_compute; reflexivity).
+  split; [exact Ha|]. split; [exact Hw|]. split; [exact (C12_cluster_wfb_assoc_ok _ _ Ha Hw)|].
+  repeat split; vm_compute; reflexivity.
+Qed.
+
 Print Assumptions C12_token.
 Print Assumptions C12_first_target.
 Print Assumptions C12_shard_u16.
@@ -657,3 +732,12 @@ Print Assumptions C12_conn_accept_complete.
 Print Assumptions C12_prop_obs_complete.
 Print Assumptions C12_prop_obs_sound.
 Print Assumptions C12_pool_wfb_sound.
+Print Assumptions C12_conn_accept_iff.
+Print Assumptions C12_pool_wfb_iff.
+Print Assumptions C12_cluster_wfb_sound.
+Print Assumptions C12_cluster_wfb_complete.
+Print Assumptions C12_cluster_wfb_assoc_ok.
+Print Assumptions C12_pool_of_sharded_has.
+Print Assumptions C12_pool_of_unsharded_has.
+Print Assumptions C12_pool_of_sharder.
+Print Assumptions C12_pool_of_wf.
